@@ -18,7 +18,7 @@ RULE = ('cut-free 1-3 rule grammars (C01 generator) with 1-3 cuts inserted at ra
         'sentences derived from the grammar, the same sentences corrupted at the lexeme right after a passed cut, near misses. '
         'non-trivial = the reference trace shows a failure after an executed cut in the same scope; classes by construct '
         '(option / optional / closure iteration 1 / iteration >= 2 / join after separator / rule-level option); '
-        'distinct = distinct (grammar, input)')
+        'every case is also parsed with prune_memos_on_cut=False and perlinememos=0.01 (same outcome required); distinct = distinct (grammar, input)')
 ASSUMPTIONS = [
     'a cut written directly in a plain group without a choice, or inside a lookahead, is flagged U7 (docs and engine differ) and only the metamorphic and locality oracles judge it',
 ] + c01.ASSUMPTIONS
@@ -130,6 +130,11 @@ def check(rules, start, text, models=None):
         with watchdog(10):
             a = tu.parse_wrapped(g, text)
             b = tu.parse_wrapped(g0, text)
+            # (d) a cut commits the same way whatever the memo settings (they only say what is cached and pruned)
+            for sname, skw in (('prune_memos_on_cut=False', dict(prune_memos_on_cut=False)), ('perlinememos=0.01', dict(perlinememos=0.01))):
+                a2 = tu.parse_wrapped(g, text, **skw)
+                if a2[:2] != a[:2] or (a[0] == 'ok' and a2 != a):
+                    return dict(bucket='settings:' + sname, oracle='the scope of a cut does not depend on memo settings', default=a, variant=a2, settings=skw), info
             # (c) locality
             loc = tu.outcome(lambda: g.parse(text, start='VF_LOC'))
             direct = tu.outcome(lambda: g.parse(text, start=start))
